@@ -175,6 +175,32 @@ def case_array(ctx, rng):
                 V(f"dagger-raises-{oi2.excname}", f"inplace=True: {oi2.exc!r}", phase_dual=pd)
             elif oi2.value is not xi2 or same_arrays(xi2, xd):
                 V("dagger-inplace-differs", f"dagger(phase_dual={pd}, inplace=True) differs from the out-of-place adjoint: {'returned another object' if oi2.value is not xi2 else same_arrays(xi2, xd)}", phase_dual=pd)
+        if pd is False and rng.random() < 0.4:
+            # the property form .H, read twice on one object with an in-place change in between
+            xh = x.copy()
+            h1 = ctx.call(lambda: xh.H)
+            how = rng.choice(["imul", "itruediv", "apply_to_arrays", "phase_global", "imul-then-phase_sync"])
+            try:
+                if how == "imul":
+                    xh *= 2.0
+                elif how == "itruediv":
+                    xh /= 4.0
+                elif how == "apply_to_arrays":
+                    xh.apply_to_arrays(lambda b_: b_ * -3.0)
+                elif how == "phase_global":
+                    xh.phase_global(inplace=True)
+                else:
+                    xh *= 0.5
+                    xh.phase_sync(inplace=True)
+            except Exception:
+                how = None
+            if how and h1.ok:
+                h2 = ctx.call(lambda: xh.H)
+                d2 = ctx.call(lambda: xh.dagger())
+                ctx.evaluated()
+                ctx.count("law", ".H-after-inplace-change")
+                if h2.ok and d2.ok and same_arrays(h2.value, d2.value):
+                    V("H-stale-after-inplace-change", f"x.H read again after {how} on x differs from x.dagger(): {same_arrays(h2.value, d2.value)}", phase_dual=pd)
         ctx.evaluated()
         ctx.count("law", "dagger=conjT")
         ot = ctx.call(lambda: xc.transpose())
